@@ -55,6 +55,7 @@ impl Check for C11 {
             Phase { name: "0/1/2/3 counter-signatures; recipient trees of depth <= 3 with empty and non-empty lists", cases: scale(if q { 18000 } else { 100000 }, b), exhaustive: false },
             Phase { name: "values decoded from styled wire forms (retained protected bytes must be re-emitted)", cases: scale(if q { 30000 } else { 200000 }, b), exhaustive: false },
             Phase { name: "built counter-signature chains of depth 1-10 through protected / unprotected / mixed headers: whether the encoding decodes may depend on the depth only", cases: 10, exhaustive: true },
+            Phase { name: "messages assembled by the builders with the signature / tag / ciphertext creating helpers, encoded, then edited in place (a protected header at any position) and encoded again: both encodings equal those of the same value written as a struct literal", cases: scale(if q { 14000 } else { 100000 }, b), exhaustive: false },
         ]
     }
     fn run_case(&self, ctx: &mut Ctx, phase: usize, idx: u64) {
@@ -104,6 +105,7 @@ impl Check for C11 {
                     }
                 }
             }
+            6 => builder_then_edit_case(ctx, idx),
             5 => {
                 let depth = idx as usize + 1;
                 let mut outcomes: Vec<(String, bool)> = Vec::new();
@@ -157,7 +159,7 @@ impl Check for C11 {
         }
     }
     fn rule(&self) -> String {
-        "in-memory values generated from the reference model (every field singly and in combination, empty vs non-empty, every label class, counter-signatures 0-3, recipient nesting <= 3, protected headers built without bytes or carrying styled wire bytes), turned into coset values through struct literals; oracle: to_vec succeeds, output is one well-formed definite-length item, the tree read by the independent parser equals the CDDL shape computed by the model (typed entries in the crate's probed order, extras in given order, h'' for an empty protected header, bstr(map) otherwise, single counter-signature inlined, nil payload, empty recipient list omitted), decode(to_vec(v)) == v with assigned protected bytes, to_tagged_vec == tag || to_vec. Non-trivial = distinct encodings.".into()
+        "in-memory values generated from the reference model (every field singly and in combination, empty vs non-empty, every label class, counter-signatures 0-3, recipient nesting <= 3, protected headers built without bytes or carrying styled wire bytes), turned into coset values through struct literals; oracle: to_vec succeeds, output is one well-formed definite-length item, the tree read by the independent parser equals the CDDL shape computed by the model (typed entries in the crate's probed order, extras in given order, h'' for an empty protected header, bstr(map) otherwise, single counter-signature inlined, nil payload, empty recipient list omitted), decode(to_vec(v)) == v with assigned protected bytes, to_tagged_vec == tag || to_vec; messages assembled by the builders with the creating helpers encode like the same value written as a struct literal, also after a protected header was edited in place. Non-trivial = distinct encodings.".into()
     }
     fn assumptions(&self) -> Vec<String> {
         let mut v = super::std_assumptions();
@@ -202,5 +204,165 @@ fn carriers(ctx: &mut Ctx, h: &MHeader) {
         if let Some(b) = encode_oracle(ctx, &v, "struct literal") {
             ctx.nontrivial_bytes(&b);
         }
+    }
+}
+
+
+/// Build `v` with the crate's builders, using the signature / tag / ciphertext creating helpers where
+/// the type has them (the creating function returns the value the model holds).  None when the model
+/// value cannot be expressed through the builder API.
+fn via_builders(v: &MVal) -> Option<crate::capi::CVal> {
+    use crate::capi::{self, CVal};
+    use crate::mon::guard;
+    let aad: &[u8] = &[0xaa, 1];
+    let r = guard(|| -> Option<CVal> {
+        Some(match v {
+            MVal::Sign1(m) => {
+                let mut b = coset::CoseSign1Builder::new().protected(capi::b_header(&m.prot.header)?).unprotected(capi::b_header(&m.unprot)?);
+                let sig = m.sig.clone();
+                b = match &m.payload {
+                    Some(p) => b.payload(p.clone()).create_signature(aad, |_| sig),
+                    None => b.create_detached_signature(&[1, 2, 3], aad, |_| sig),
+                };
+                CVal::Sign1(b.build())
+            }
+            MVal::Sign(m) => {
+                let mut b = coset::CoseSignBuilder::new().protected(capi::b_header(&m.prot.header)?).unprotected(capi::b_header(&m.unprot)?);
+                if let Some(p) = &m.payload {
+                    b = b.payload(p.clone());
+                }
+                for (i, s) in m.sigs.iter().enumerate() {
+                    let template = coset::CoseSignatureBuilder::new().protected(capi::b_header(&s.prot.header)?).unprotected(capi::b_header(&s.unprot)?).build();
+                    let sig = s.sig.clone();
+                    b = match (m.payload.is_some(), i % 2) {
+                        (true, 0) => b.add_created_signature(template, aad, |_| sig),
+                        (true, _) => b.try_add_created_signature(template, aad, |_| -> Result<Vec<u8>, ()> { Ok(sig) }).ok()?,
+                        (false, 0) => b.add_detached_signature(template, &[4], aad, |_| sig),
+                        (false, _) => b.try_add_detached_signature(template, &[4], aad, |_| -> Result<Vec<u8>, ()> { Ok(sig) }).ok()?,
+                    };
+                }
+                CVal::Sign(b.build())
+            }
+            MVal::Mac0(m) => {
+                let tag = m.tag.clone();
+                let b = coset::CoseMac0Builder::new().protected(capi::b_header(&m.prot.header)?).unprotected(capi::b_header(&m.unprot)?).payload(m.payload.clone()?);
+                CVal::Mac0(b.create_tag(aad, |_| tag).build())
+            }
+            MVal::Mac(m) => {
+                let tag = m.tag.clone();
+                let mut b = coset::CoseMacBuilder::new().protected(capi::b_header(&m.prot.header)?).unprotected(capi::b_header(&m.unprot)?).payload(m.payload.clone()?);
+                b = b.try_create_tag(aad, |_| -> Result<Vec<u8>, ()> { Ok(tag) }).ok()?;
+                for r in &m.recipients {
+                    b = b.add_recipient(capi::b_rcp(r)?);
+                }
+                CVal::Mac(b.build())
+            }
+            MVal::Encrypt0(m) => {
+                let ct = m.ct.clone()?;
+                let b = coset::CoseEncrypt0Builder::new().protected(capi::b_header(&m.prot.header)?).unprotected(capi::b_header(&m.unprot)?);
+                CVal::Encrypt0(b.create_ciphertext(&[5, 5], aad, |_, _| ct).build())
+            }
+            MVal::Encrypt(m) => {
+                let ct = m.ct.clone()?;
+                let mut b = coset::CoseEncryptBuilder::new().protected(capi::b_header(&m.prot.header)?).unprotected(capi::b_header(&m.unprot)?);
+                for r in &m.recipients {
+                    b = b.add_recipient(capi::b_rcp(r)?);
+                }
+                b = b.try_create_ciphertext(&[5], aad, |_, _| -> Result<Vec<u8>, ()> { Ok(ct) }).ok()?;
+                CVal::Encrypt(b.build())
+            }
+            MVal::Recipient(m) => {
+                let ct = m.ct.clone()?;
+                let mut b = coset::CoseRecipientBuilder::new().protected(capi::b_header(&m.prot.header)?).unprotected(capi::b_header(&m.unprot)?);
+                b = b.create_ciphertext(coset::EncryptionContext::EncRecipient, &[6], aad, |_, _| ct);
+                for r in &m.recipients {
+                    b = b.add_recipient(capi::b_rcp(r)?);
+                }
+                CVal::Recipient(b.build())
+            }
+            _ => return None,
+        })
+    });
+    r.ok().flatten()
+}
+
+/// the protected headers of a message that a caller can reach through public fields, as (path, model, crate)
+fn edit_position(v: &mut MVal, c: &mut crate::capi::CVal, which: usize, new_kid: &[u8]) -> Option<String> {
+    use crate::capi::CVal;
+    macro_rules! set {
+        ($mp:expr, $cp:expr, $name:expr) => {{
+            $mp.header.kid = new_kid.to_vec();
+            $cp.header.key_id = new_kid.to_vec();
+            return Some($name.to_string());
+        }};
+    }
+    match (v, c) {
+        (MVal::Sign1(m), CVal::Sign1(x)) => set!(m.prot, x.protected, "body.protected"),
+        (MVal::Mac0(m), CVal::Mac0(x)) => set!(m.prot, x.protected, "body.protected"),
+        (MVal::Encrypt0(m), CVal::Encrypt0(x)) => set!(m.prot, x.protected, "body.protected"),
+        (MVal::Sign(m), CVal::Sign(x)) => {
+            let n = m.sigs.len().min(x.signatures.len());
+            if n > 0 && which % (n + 1) < n {
+                let i = which % (n + 1);
+                set!(m.sigs[i].prot, x.signatures[i].protected, format!("signatures[{}].protected", i))
+            }
+            set!(m.prot, x.protected, "body.protected")
+        }
+        (MVal::Mac(m), CVal::Mac(x)) => {
+            let n = m.recipients.len().min(x.recipients.len());
+            if n > 0 && which % (n + 1) < n {
+                let i = which % (n + 1);
+                set!(m.recipients[i].prot, x.recipients[i].protected, format!("recipients[{}].protected", i))
+            }
+            set!(m.prot, x.protected, "body.protected")
+        }
+        (MVal::Encrypt(m), CVal::Encrypt(x)) => {
+            let n = m.recipients.len().min(x.recipients.len());
+            if n > 0 && which % (n + 1) < n {
+                let i = which % (n + 1);
+                set!(m.recipients[i].prot, x.recipients[i].protected, format!("recipients[{}].protected", i))
+            }
+            set!(m.prot, x.protected, "body.protected")
+        }
+        (MVal::Recipient(m), CVal::Recipient(x)) => set!(m.prot, x.protected, "recipient.protected"),
+        _ => None,
+    }
+}
+
+fn builder_then_edit_case(ctx: &mut Ctx, idx: u64) {
+    use crate::capi;
+    const TYS: [Ty; 7] = [Ty::Sign, Ty::Sign1, Ty::Mac, Ty::Mac0, Ty::Encrypt, Ty::Encrypt0, Ty::Recipient];
+    let ty = TYS[(idx % 7) as usize];
+    let mut v = gen::gen_mval(&mut ctx.rng, ty, &GenOpts::built());
+    let mut c = match via_builders(&v) {
+        Some(c) => c,
+        None => {
+            ctx.count("not-expressible-through-builders");
+            return;
+        }
+    };
+    let lit = |v: &MVal| capi::build(v).and_then(|x| capi::to_vec(x).ok());
+    let cmp = |ctx: &mut Ctx, stage: &str, what: &str, c: &capi::CVal, v: &MVal| {
+        ctx.eval();
+        ctx.count(&format!("builder-made:{}", stage));
+        let got = capi::to_vec(c.clone());
+        let want = lit(v);
+        match (got, want) {
+            (Ok(g), Some(w)) if g == w => ctx.nontrivial_bytes(&g),
+            (Ok(g), Some(w)) => ctx.violation(
+                &format!("C11/builder-made-{}/{}", stage, ty.name()),
+                format!("a {} assembled by the builder and its creating helpers ({}) encodes to {} but the same value written as a struct literal encodes to {}", ty.name(), what, super::structs::short(&g), super::structs::short(&w)),
+                J::obj(vec![("type", J::Str(ty.name())), ("got", J::Str(hex(&g))), ("want", J::Str(hex(&w)))]),
+            ),
+            (Err(k), Some(_)) => ctx.violation(&format!("C11/builder-made-{}-encode-failed/{}", stage, ty.name()), format!("encoding failed with {} ({})", k.name(), what), J::Null),
+            _ => ctx.count("literal-not-encodable"),
+        }
+    };
+    cmp(ctx, "as-built", "as built", &c, &v);
+    // edit one reachable protected header in place and encode again
+    let which = ctx.rng.below(8);
+    let new_kid = vec![0xed, ctx.rng.next() as u8, 0x17];
+    if let Some(pos) = edit_position(&mut v, &mut c, which, &new_kid) {
+        cmp(ctx, "then-edited", &format!("then {} edited in place", pos), &c, &v);
     }
 }
